@@ -124,12 +124,18 @@ func (c *clientCodec) WriteRequest(ctx *Context, param interface{}) error {
 	return err
 }
 
-func (c *clientCodec) ReadResponseHeader(ctx *Context) error {
+func (c *clientCodec) ReadResponseHeader(ctx *Context) (err error) {
 	if atomic.LoadUint32(&c.closed) > 0 {
 		return io.EOF
 	}
+	defer func() {
+		// the header decoders index into the frame without bounds checks:
+		// a truncated or corrupted frame is an error, not a crash
+		if r := recover(); r != nil {
+			err = errors.New("rpc: malformed response header")
+		}
+	}()
 	var data = ctx.data
-	var err error
 	if c.headerEncoder != nil {
 		res := c.headerEncoder.NewResponse()
 		res.Reset()
